@@ -5,6 +5,7 @@ go 1.23.0
 require (
 	github.com/spf13/afero v1.12.0
 	github.com/xakep666/ps3netsrv-go v0.0.0
+	golang.org/x/net v0.37.0
 	pgregory.net/rapid v1.3.0
 )
 
